@@ -38,7 +38,7 @@ Proof. revert l. induction sizes; cbn; intros; [reflexivity|]. now rewrite IHsiz
 Lemma concat_split_by {A} sizes (l : list A) :
   total sizes = length l -> concat (split_by sizes l) = l.
 Proof.
-  revert l. induction sizes as [|n r IH]; cbn; intros l E.
+  unfold total. revert l. induction sizes as [|n r IH]; cbn; intros l E.
   - destruct l; [reflexivity|discriminate].
   - rewrite IH; [apply firstn_skipn|]. rewrite skipn_length. lia.
 Qed.
@@ -52,4 +52,4 @@ Proof.
 Qed.
 
 Lemma total_app a b : total (a ++ b) = total a + total b.
-Proof. induction a; cbn; lia. Qed.
+Proof. unfold total. induction a; cbn; lia. Qed.
